@@ -4,8 +4,8 @@ from genlib import *
 from props.c12_mpq import rand_q, canon, pos, sgn, limbsize, coprime_to, q3
 
 LEAN_MODULES = ["MpirProofs.Props.C11Mpq"]
-THEOREMS = ["Mpir.Mpq." + t for t in ("mpq_cmp_spec", "mpq_cmp_prechecks_sound", "mpq_cmp_z_spec", "mpq_cmp_ui_spec", "mpq_cmp_si_spec")]
-TRUSTED = ["hand-written value-level model of mpq/cmp.c, cmp_ui.c, cmp_si.c, equal.c in lean/Mpir/Model/Mpq.lean (tied by correspondence on every run)"]
+THEOREMS = ["Mpir.Mpq." + t for t in ("mpq_cmp_spec", "mpq_cmp_prechecks_sound", "mpq_cmp_z_spec", "mpq_cmp_ui_spec", "mpq_cmp_si_spec", "mpq_get_d_spec")]
+TRUSTED = ["hand-written value-level model of mpq/cmp.c, cmp_ui.c, cmp_si.c, equal.c, get_d.c (+ the IEEE path of mpn/generic/get_d.c) in lean/Mpir/Model/Mpq.lean (tied by correspondence on every run)"]
 ASSUMPTIONS = ["limb and bit counts of the operands are computed from their values (Nat.log2); the limb-level cross products are taken at their value"]
 RULE = ("mpq_cmp pairs with num1*den2 and num2*den1 of equal / adjacent / distant limb and bit lengths (each pre-check and the cross-multiplication), "
         "equal values, values differing by one unit in the cross product, opposite signs, zero, integers on one or both sides, same variable; "
